@@ -344,7 +344,7 @@ def simulate(ctx, judge, name, sizes, nsim, maxrows, minrows, clauses, sample_al
         if nb > cap:
             break
         run_history(ctx, judge, h[0]["a"], h[0]["b"], h[1:], variant=(ctx.seed * 31 + nb) % 100003, kind="behaviour",
-                    sample_all=sample_all and judge.sampled < 3000)
+                    sample_all=sample_all and judge.sampled < ctx.pick(3000, 15000))
     if nb == 0:
         raise core.MachineryError("simulation %s produced no behaviour\n%s" % (name, res.stdout[-1500:]))
     ctx.extra["behaviours_" + name] = nb
@@ -388,7 +388,7 @@ def run(ctx):
         names = set(t["op"]["name"] for t in trs)
         if len(names) != 10:
             raise core.MachineryError("coverage hole: operations emitted = %s" % sorted(names))
-        budget = ctx.pick(2500, 45000)
+        budget = ctx.pick(2000, 30000)
         # deterministic sub-sample by hash of (seed, transition), the budget shared evenly by the operation kinds
         keyed = sorted(trs, key=lambda t: core.stable_hash([ctx.seed, t]))
         by_kind = {}
@@ -406,7 +406,7 @@ def run(ctx):
     if want("sim"):
         rng = random.Random(ctx.seed + 17)
         small = [rng.randint(0, 8) for _ in range(ctx.pick(40, 300))]
-        simulate(ctx, judge, "sim_small", small, ctx.pick(120, 4000), 30, 1, True, True, ctx.pick(120, 4000))
+        simulate(ctx, judge, "sim_small", small, ctx.pick(120, 2500), 30, 1, True, True, ctx.pick(120, 2500))
         simulate(ctx, judge, "sim_empty", [rng.randint(0, 4) for _ in range(20)], ctx.pick(30, 400), 12, 0, True, True,
                  ctx.pick(30, 400))
         med = [rng.randint(9, 40) for _ in range(ctx.pick(10, 60))]
